@@ -113,6 +113,7 @@ def wait_for_finished_nodes(
     done: Set["Future[Any]"],
     running: Set["Future[Any]"],
     runnable_xns_ids: Set[Identifier],
+    block: bool = True,
 ) -> Tuple[Set["Future[Any]"], Set["Future[Any]"], Set[Identifier]]:
     """Wait for the finished futures before pruning them from the graph.
 
@@ -123,13 +124,14 @@ def wait_for_finished_nodes(
         done: the set of finished futures
         running: the running threads
         runnable_xns_ids: the exec nodes that are available to be run
+        block: if False only collect the futures that have already finished
 
     Returns:
         finisehd futures, running futures and runnable nodes
     """
     if len(running) == 0:
         return done, running, runnable_xns_ids
-    done_, running = wait(running, return_when=return_when)
+    done_, running = wait(running, timeout=None if block else 0, return_when=return_when)
     done = done.union(done_)
 
     # 1. among the finished futures:
@@ -297,6 +299,7 @@ async def async_execute(
                 async_running,
                 async_done,
             )
+            awaited_async = len(async_running) != 0
             async_done, async_running, runnable_xns_ids = await wait_for_finished_nodes_async(
                 FIRST_COMPLETED, graph, async_futures, async_done, async_running, runnable_xns_ids
             )
@@ -305,8 +308,16 @@ async def async_execute(
                 conc_running,
                 conc_done,
             )
+            # a single completion is enough to go on: if an async node has just finished,
+            # only collect the threads that are already done instead of blocking for one of them too
             conc_done, conc_running, runnable_xns_ids = wait_for_finished_nodes(
-                FIRST_COMPLETED, graph, conc_futures, conc_done, conc_running, runnable_xns_ids
+                FIRST_COMPLETED,
+                graph,
+                conc_futures,
+                conc_done,
+                conc_running,
+                runnable_xns_ids,
+                block=not awaited_async,
             )
 
         # 3. if no runnable node exist, go to step 6 (wait for a node to finish)
@@ -330,11 +341,18 @@ async def async_execute(
             logger.debug(
                 "{} must not run in parallel. Wait for the end of a node in {}", xn.id, conc_running
             )
+            awaited_async = len(async_running) != 0
             async_done, async_running, runnable_xns_ids = await wait_for_finished_nodes_async(
                 FIRST_COMPLETED, graph, async_futures, async_done, async_running, runnable_xns_ids
             )
             conc_done, conc_running, runnable_xns_ids = wait_for_finished_nodes(
-                FIRST_COMPLETED, graph, conc_futures, conc_done, conc_running, runnable_xns_ids
+                FIRST_COMPLETED,
+                graph,
+                conc_futures,
+                conc_done,
+                conc_running,
+                runnable_xns_ids,
+                block=not awaited_async,
             )
             continue
 
